@@ -38,6 +38,34 @@ pub fn select(tier: Tier, seed: u64) -> Vec<(String, Spec)> {
         let class2 = format!("[\\x{:02x}-\\x{:02x}\\x{:02x}-\\x{:02x}]y", b + 3, b + 4, b + 6, b + 7);
         v.push((format!("byterange{b}"), Spec::new(false, vec![vcore::spec::Pat::bregex(class.as_bytes()), vcore::spec::Pat::bregex(class2.as_bytes())])));
     }
+    // a sample of the C10 (literal / ignore(case)) and C11 (subpattern) families, replayed by
+    // their own checks on the compiled lexers
+    {
+        use vcore::spec::{Kind, Lit, Pat};
+        let lits = ["k", "K", "ß", "σς", "é.", "a+b", "[x]", "s\\", "Kk", "€$", "(a|b)", "ſ"];
+        for (i, w) in lits.iter().enumerate() {
+            for (j, ic) in [false, true].iter().enumerate() {
+                let mut p = Pat::new(Kind::Token, Lit::Str(w.to_string()));
+                p.icase = *ic;
+                v.push((format!("c10_tok{i}_{j}"), Spec::new(true, vec![p.clone(), Pat::regex("[a-z]").prio(1)])));
+                let mut sk = Pat::new(Kind::Skip, Lit::Str(crate::families::escape_str_pub(w)));
+                sk.icase = *ic;
+                v.push((format!("c10_skip{i}_{j}"), Spec::new(true, vec![sk, Pat::token("zz")])));
+            }
+        }
+        for (i, w) in [&b"\x80"[..], b"a\xffK", b"\x00k", b"K\xe9"].iter().enumerate() {
+            for (j, ic) in [false, true].iter().enumerate() {
+                let mut p = Pat::new(Kind::Token, Lit::Bytes(w.to_vec()));
+                p.icase = *ic;
+                v.push((format!("c10_btok{i}_{j}"), Spec::new(false, vec![p, Pat::bregex(b"[a-z]").prio(1)])));
+            }
+        }
+        for (i, s) in crate::families::c11_specs(Tier::Quick).into_iter().enumerate() {
+            if i % 23 == 0 {
+                v.push((format!("c11_{i}"), s));
+            }
+        }
+    }
     // first definition of every distinct graph-shape signature met while enumerating the family
     let fam = vcore::enumerate::family(Tier::Quick);
     let shapes: Vec<Option<(String, usize)>> = fam
